@@ -2,15 +2,6 @@
    raw-text end.  Definitions only; pure functions of the input bytes (no cursor, no lexer state). *)
 From Verif Require Import Common.Base Common.Lx Html.Model.
 
-Fixpoint prefixb (p s : list Z) : bool :=
-  match p with
-  | [] => true
-  | x :: p' => match s with
-               | [] => false
-               | y :: s' => (x =? y) && prefixb p' s'
-               end
-  end.
-
 (* a quoted string inside a template region, after its opening quote q: number of bytes up to and including the
    closing quote (a quote preceded by an odd number of backslashes does not close); None = unterminated *)
 Fixpoint str_end (q : Z) (esc : bool) (s : list Z) : option Z :=
